@@ -298,7 +298,7 @@ theorem length_rstrip_le (s : Str) : (rstrip s).length ≤ s.length := by
 theorem epoch_fits (hdr : List HdrRec) (e : Epoch) (h : e.wf hdr = true) :
     Fits epoch3.layout (epoch3.aligns.zip (epochCells e)) = true := by
   simp only [Epoch.wf, Bool.and_eq_true, decide_eq_true_eq] at h
-  obtain ⟨⟨⟨⟨⟨⟨⟨⟨⟨⟨hy, hmo⟩, hd⟩, hh⟩, hmi⟩, hs⟩, hf⟩, hns⟩, hnl⟩, hc⟩, _⟩ := h
+  obtain ⟨⟨⟨⟨⟨⟨⟨⟨⟨⟨⟨_, hy⟩, hmo⟩, hd⟩, hh⟩, hmi⟩, hs⟩, hf⟩, hns⟩, hnl⟩, hc⟩, _⟩ := h
   have y := intCell_facts hy
   have mo := intCell_facts hmo
   have d := intCell_facts hd
@@ -342,7 +342,7 @@ theorem epoch_line (hdr : List HdrRec) (e : Epoch) (h : e.wf hdr = true) (n : Na
   obtain ⟨_, v1, v2, v3, v4, v5, v6, v7, v8, v9⟩ := hall
   simp only [FixedCol.slice] at v1 v2 v3 v4 v5 v6 v7 v8 v9 hcom
   simp only [Epoch.wf, Bool.and_eq_true, decide_eq_true_eq] at h
-  obtain ⟨⟨⟨⟨⟨⟨⟨⟨⟨⟨hy, hmo⟩, hd⟩, hh⟩, hmi⟩, hs⟩, hf⟩, hns⟩, hnl⟩, hc⟩, _⟩ := h
+  obtain ⟨⟨⟨⟨⟨⟨⟨⟨⟨⟨⟨_, hy⟩, hmo⟩, hd⟩, hh⟩, hmi⟩, hs⟩, hf⟩, hns⟩, hnl⟩, hc⟩, _⟩ := h
   unfold parseLine
   have h1 : obsParser.skipLine line = false := rfl
   have h2 : obsParser.label (rstrip line) n = "False" := hlab
@@ -678,5 +678,101 @@ theorem sat_line (hdr : List HdrRec) (r : SatRec) (hr : r.wf hdr = true) (n : Na
     simp only [bind, Except.bind, pure, Except.pure] at hmap
     simp only [hmap, addRecord, bind, Except.bind, pure, Except.pure]
 
+
+/-! ### special records of an event epoch -/
+
+theorem label_len : headerSpecs.all (fun sp => decide (sp.label.toList.length ≤ 20)) = true := by decide +kernel
+
+/-- **a special record of an event epoch is ignored**: a header record whose label starts with a letter is no
+observation line, and `_parse_observation_epoch` rejects it (no numeric year, or a letter in column 61) -/
+theorem special_line (kc : String × List Str) (h : specialOk kc = true) (n : Nat) (s : State) :
+    parseLine obsParser (rstrip (rec kc.1 kc.2)) n s = .ok s := by
+  simp only [specialOk, Bool.and_eq_true, okCells, decide_eq_true_eq] at h
+  obtain ⟨⟨⟨hk, ⟨⟨_, hf⟩, _⟩⟩, hal⟩, _⟩ := h
+  obtain ⟨sp, hsp⟩ := Option.isSome_iff_exists.mp hk
+  have hs := spec_eq hsp
+  have hmem := findKind_mem hsp
+  unfold rec
+  rw [hs] at hf hal ⊢
+  have hl20 : sp.label.toList.length ≤ 20 := by
+    have := List.all_eq_true.mp label_len sp hmem
+    simpa using this
+  have hcom := slice_label sp hmem kc.2 hf 20
+  rw [List.take_of_length_le hl20] at hcom
+  have hone := slice_label sp hmem kc.2 hf 1
+  have hok := List.all_eq_true.mp specs_ok sp hmem
+  simp only [specOk, Bool.and_eq_true, decide_eq_true_eq, Bool.not_eq_eq_eq_not, Bool.not_true] at hok
+  have hclean := hok.1.2
+  have hidem : rstrip (rstrip (renderLabelled sp kc.2)) = rstrip (renderLabelled sp kc.2) := rstrip_idem _
+  generalize rstrip (renderLabelled sp kc.2) = line at hcom hone hidem ⊢
+  cases hlab : sp.label.toList with
+  | nil => rw [hlab] at hal; simp at hal
+  | cons c rest =>
+    rw [hlab] at hal hcom hone hclean
+    have hca : c.isAlpha = true := by simpa using hal
+    have h60 : alphaAt line 60 = true := by
+      unfold alphaAt
+      have : Text.slice 60 (60 + 1) line = [c] := by simpa using hone
+      rw [this]; exact hca
+    have hcomv : strip (sliceRaw ⟨"comment", 60, 80⟩ line) = c :: rest := by
+      show strip (Text.slice 60 80 line) = _
+      rw [show (80 : Nat) = 60 + 20 from rfl, hcom]
+      exact strip_of_clean hclean
+    unfold parseLine
+    have h1 : obsParser.skipLine line = false := rfl
+    have h2 : obsParser.label (rstrip line) n = "False" := by
+      show obsLabel (rstrip line) = "False"
+      rw [hidem]
+      simp [obsLabel, h60]
+    have h3 : obsParser.defs = Midgard.Generated.Rinex3ObsCols.records := rfl
+    rw [h1, h2, h3, epoch_def]
+    simp only [Bool.false_eq_true, if_false, LabelDef.values, List.map_cons, List.map_nil, List.append_nil, StripOpt.apply, hcomv]
+    show handle "_parse_observation_epoch" _ s = _
+    simp only [handle, String.reduceEq, if_false, if_true]
+    simp only [parseObservationEpoch, getv, Values.get, List.find?, String.reduceBEq, Option.map_some, req, bind, Except.bind,
+      pure, Except.pure]
+    by_cases hn : isNumeric (strip (sliceRaw ⟨"year", 2, 6⟩ line)) = true
+    · simp [hn, hca]
+    · simp [hn]
+
+
+theorem rec_rstrip (k : String) (sp : RecSpec) (hk : findKind k = some sp) (cells : List Str) : rstrip (rec k cells) = rec k cells := by
+  unfold rec
+  rw [spec_eq hk]
+  have hok := List.all_eq_true.mp specs_ok sp (findKind_mem hk)
+  simp only [specOk, Bool.and_eq_true, decide_eq_true_eq, Bool.not_eq_eq_eq_not, Bool.not_true] at hok
+  have hne' : sp.label.toList ≠ [] := by
+    intro h; have := hok.2; rw [h] at this; simp at this
+  unfold renderLabelled renderCells
+  exact labelled_rstrip _ _ _ hok.1.2 hne'
+
+theorem startsWith_append (x y : Str) (hx : x ≠ []) : startsWith ['>'] (x ++ y) = startsWith ['>'] x := by
+  cases x with
+  | nil => exact absurd rfl hx
+  | cons c t => simp [startsWith, List.isPrefixOf]
+
+theorem special_starts (st : Style) (kc : String × List Str) (h : specialOk kc = true) :
+    startsWith ['>'] (styled st (rec kc.1 kc.2) ++ ['\n']) = false := by
+  simp only [specialOk, Bool.and_eq_true, Bool.not_eq_eq_eq_not, Bool.not_true] at h
+  obtain ⟨⟨⟨hk, _⟩, _⟩, hgt⟩ := h
+  obtain ⟨sp, hsp⟩ := Option.isSome_iff_exists.mp hk
+  have hne : rec kc.1 kc.2 ≠ [] := by
+    intro e; rw [e] at hgt
+    have := rec_rstrip kc.1 sp hsp kc.2
+    unfold rec at e
+    rw [spec_eq hsp] at e
+    unfold renderLabelled at e
+    have hok := List.all_eq_true.mp specs_ok sp (findKind_mem hsp)
+    simp only [specOk, Bool.and_eq_true, Bool.not_eq_eq_eq_not, Bool.not_true] at hok
+    have : sp.label.toList = [] := (List.append_eq_nil_iff.mp e).2
+    rw [this] at hok; simp at hok
+  cases st
+  · show startsWith ['>'] (rec kc.1 kc.2 ++ ['\n']) = false
+    rw [startsWith_append _ _ hne]; exact hgt
+  · show startsWith ['>'] (rstrip (rec kc.1 kc.2) ++ ['\n']) = false
+    rw [rec_rstrip kc.1 sp hsp, startsWith_append _ _ hne]; exact hgt
+  · show startsWith ['>'] (ljust 80 (rec kc.1 kc.2) ++ ['\n']) = false
+    unfold ljust
+    rw [List.append_assoc, startsWith_append _ _ hne]; exact hgt
 
 end Midgard.Spec.Rinex3ObsFile
